@@ -15,3 +15,29 @@ package strutil
 //@   attr assumed unsafe
 //@   modifies nothing
 //@   ensures len(result) == len(b)
+
+// ---- C16: POSIX shell reading of the escaped text (specification artefact, DESIGN C16) ----
+// Byte transducer of sh token recognition / quote removal (XCU 2.2, 2.3) restricted to what can follow an opening
+// single quote. States: 1 SQ (inside '...'), 2 UQ (unquoted part of the word), 3 UQE (after \ unquoted),
+// 4 DQ (inside "..."), 5 DQE (after \ inside "..."), 0 BAD (word ended, expansion or anything not modelled).
+//@ pure shBreak(c int) bool = c == ' ' || c == 9 || c == 10 || c == ';' || c == '&' || c == '|' || c == '<' || c == '>' || c == '(' || c == ')'
+//@ pure shExpand(c int) bool = c == '$' || c == 96 || c == '*' || c == '?' || c == '[' || c == '~' || c == '#' || c == '!' || c == '{' || c == '=' || c == '%'
+//@ pure shNext(q int, c int) int = ite(c == 0, 0, ite(q == 1, ite(c == 39, 2, 1), ite(q == 2, ite(c == 39, 1, ite(c == '"', 4, ite(c == 92, 3, ite(shBreak(c) || shExpand(c), 0, 2)))), ite(q == 3, ite(c == 10, 0, 2), ite(q == 4, ite(c == '"', 2, ite(c == 92, 5, ite(c == '$' || c == 96, 0, 4))), ite(q == 5, ite(c == '$' || c == 96 || c == '"' || c == 92, 4, 0), 0))))))
+// byte contributed to the word by reading c in state q, -1 for none
+//@ pure shEmit(q int, c int) int = ite(q == 1, ite(c == 39, -1, c), ite(q == 2, ite(c == 39 || c == '"' || c == 92, -1, c), ite(q == 3, c, ite(q == 4, ite(c == '"' || c == 92, -1, c), ite(q == 5, c, -1)))))
+// shRun(r, i, q, n): reading r[i:] from state q with n bytes contributed so far ends in SQ having contributed
+// exactly one byte in total, a single quote
+//@ uf shRun(string, int, int, int) bool
+//@ axiom shRun_def: forall r string, i int, q int, n int {shRun(r, i, q, n)} :: shRun(r, i, q, n) == ite(i >= len(r), q == 1 && n == 1, shNext(q, r[i]) != 0 && ite(shEmit(q, r[i]) == -1, shRun(r, i + 1, shNext(q, r[i]), n), shEmit(q, r[i]) == 39 && shRun(r, i + 1, shNext(q, r[i]), n + 1)))
+// a replacement text r is good if, read inside single quotes, it leaves the shell inside single quotes again having
+// contributed exactly ' to the word, with no word break and no expansion on the way
+//@ pure goodRepl(r string) bool = shRun(r, 0, 1, 0)
+//@ pure quoteWith(x string, r string) string = "'" + replaceAll(x, "'", r) + "'"
+
+//@ func ShellEscape
+//@   modifies nothing
+//@   ensures shape: exists r string {replaceAll(s, "'", r)} :: goodRepl(r) && result == quoteWith(s, r)
+
+//@ func ShellEscapeExceptTilde
+//@   modifies nothing
+//@   ensures shape: exists r string {replaceAll(s, "'", r)} {replaceAll(s[2:], "'", r)} :: goodRepl(r) && result == ite(len(s) >= 2 && s[0:2] == "~/", "~/" + quoteWith(s[2:], r), quoteWith(s, r))
